@@ -16,7 +16,7 @@ def c04(tier):
     ]
 
     def relevant(mm, sess, runs):
-        return mm['kind'] in ('stackbound', 'taildepth', 'tailvalue', 'conformance')
+        return mm['kind'] in ('stackbound', 'taildepth', 'tailvalue', 'conformance', 'abort')
 
     import vmt
     vcov = {}
